@@ -102,3 +102,30 @@ func VerifC17_BackoffSequence() {
 	}
 	vReach("sequence-done")
 }
+
+// Three tick callbacks overlapping directly on the strategy (what
+// ScheduleRetransmissions' per-tick goroutines amount to), from the initial
+// state: tick numbers may be taken and evaluated in different orders.
+func VerifC17_BackoffOverlap3() {
+	s := WithBackoffStrategy()
+	var mu sync.Mutex
+	count := 0
+	var wg sync.WaitGroup
+	for i := 0; i < 3; i++ {
+		wg.Add(1)
+		go func() {
+			s.Tick(func() error {
+				mu.Lock()
+				count++
+				mu.Unlock()
+				return nil
+			})
+			wg.Done()
+		}()
+	}
+	wg.Wait()
+	vReach("overlap-done")
+	want, delay, next := vSchedule(3)
+	vAssert(count == want, "backoff strategy did not retransmit exactly on the scheduled ticks when tick callbacks overlapped")
+	vAssert(s.tickCounter == 3 && s.delay == delay && s.retransmitTick == next, "backoff schedule state corrupted by overlapping tick callbacks (later retransmissions shift)")
+}
